@@ -345,6 +345,7 @@ type GraphProg struct {
 	Config     bool    `json:"config,omitempty"`      // bind slot V0 of every node from configuration (value tag)
 	Full       bool    `json:"full,omitempty"`        // add two loaders, two runners, a scanner and a factory post-processor (fault sites)
 	Extra      []Extra `json:"extra,omitempty"`       // additional unsatisfiable points
+	Bystander  int     `json:"bystander,omitempty"`   // 1: an Ordered(1), 2: a PriorityOrdered(1) processor that only embeds the library default
 	ProcNode   bool    `json:"procnode,omitempty"`    // add a post-processor that has injection points of its own
 	InitLookup [][]int `json:"init_lookup,omitempty"` // [i, j]: node i looks node j up by name inside its Init
 	// Attach builds additional harness components that need the execution's runtime.
@@ -597,6 +598,12 @@ func RunGraph(p *GraphProg, ch *envx.Chooser) *GraphObs {
 	if p.ProcNode {
 		comps = append(comps, &ProcNode{rt: rt})
 	}
+	switch p.Bystander {
+	case 1:
+		comps = append(comps, &BystanderO{})
+	case 2:
+		comps = append(comps, &BystanderP{})
+	}
 	var opts []app.SettingOption
 	if p.Config {
 		vt := map[string]map[string]string{}
@@ -623,7 +630,7 @@ func RunGraph(p *GraphProg, ch *envx.Chooser) *GraphObs {
 		}
 		comps = append(comps, NewValueScanner(vt))
 		if p.Full {
-			opts = append(opts, app.SetConfigLoader(&FaultLoader{Nm: "l1", Doc: sb.String(), rt: rt}, &FaultLoader{Nm: "l2", Doc: "other:\n  k: 1\n", rt: rt}))
+			opts = append(opts, app.SetConfigLoader(&FaultLoader{Nm: "l1", Doc: sb.String(), rt: rt}, &FaultLoader{Nm: "l2", Doc: "other:\n  k: 1\n", rt: rt}, &FaultLoader{Nm: "l3", Doc: "third:\n  k: 2\n", rt: rt}))
 		} else {
 			opts = append(opts, app.SetConfigLoader(loader.NewRawLoader([]byte(sb.String()))))
 		}
